@@ -483,10 +483,16 @@ fn main() {
   // (class-bound programs do not survive lowering on the pinned tree: known finding C03-K2)
   let fams: Vec<Prog> = progfam::all_families(thorough).into_iter().filter(|p| p.family != "class-bound").collect();
   if thorough {
-    // the two largest generated families at stride 4 (C01/C03/C04 run them in full; here every
-    // program costs 48 optimiser pipelines)
+    // the three largest generated families at a stride (vec-ops 16, inference-shape 8, type-shape 4;
+    // C01/C03/C04 run them in full; here every program costs 45 optimiser pipelines)
     for (i, p) in fams.into_iter().enumerate() {
-      if !matches!(p.family, "inference-shape" | "type-shape") || i % 4 == 0 {
+      let stride = match p.family {
+        "vec-ops" => 16,
+        "inference-shape" => 8,
+        "type-shape" => 4,
+        _ => 1,
+      };
+      if i % stride == 0 {
         progs.push(p);
       }
     }
